@@ -159,20 +159,22 @@ Theorem c12_remove_prof_error : forall removed cf lz (p : profile) e,
   e = EValue /\ ~ NoDup (set_diff (cands p) removed).
 Proof. exact (remove_prof_error cand ceqb ceqb_spec). Qed.
 
-(* KNOWN DEFECT of the Python code, characterised exactly: remove_cand on a single Ballot raises
-   IndexError precisely when leave_zero_weight_ballots is off and the scrubbed ballot has no
-   positive weight; it raises nothing else and otherwise returns the scrubbed ballot *)
+(* remove_cand on a single Ballot (after the repair of the IndexError recorded in
+   known_findings.json): it never fails, ignores both flags and returns the scrubbed ballot:
+   no removed candidate, ranking = strip (order and grouping kept, c12_strip_order), scores
+   filtered, weight kept unless neither ranking nor scores are left, in which case the result is
+   the empty ballot of weight 0 *)
 Theorem c12_remove_ballot : forall removed cf lz b,
-  (remove_cand_ballot removed cf lz b = inr EIndex <->
-     lz = false /\ ~ 0 < wt (scrub removed b)) /\
-  (forall e, remove_cand_ballot removed cf lz b = inr e -> e = EIndex) /\
-  (forall b', remove_cand_ballot removed cf lz b = inl b' -> b' = scrub removed b).
-Proof. exact (remove_ballot_index_error cand ceqb). Qed.
-
-Theorem c12_remove_ballot_exhausted : forall removed cf lz b, 0 < wt b ->
-  (remove_cand_ballot removed cf lz b = inr EIndex <->
-     lz = false /\ strip removed (rk b) = [] /\ strip_scores removed (sc b) = []).
-Proof. exact (remove_ballot_exhausted cand ceqb). Qed.
+  exists b', remove_cand_ballot removed cf lz b = inl b' /\
+    b' = scrub removed b /\
+    (forall c, In c removed -> ~ In c (flat (rk b'))) /\
+    rk b' = strip removed (rk b) /\
+    sc b' = strip_scores removed (sc b) /\
+    wt b' = (if nonempty (strip removed (rk b)) || nonempty (strip_scores removed (sc b))
+             then wt b else 0) /\
+    (strip removed (rk b) = [] -> strip_scores removed (sc b) = [] ->
+       b' = mkBallot [] 0 [] None None).
+Proof. exact (remove_ballot_spec cand ceqb ceqb_spec). Qed.
 
 (* ---------- 5. add_missing_cands ---------- *)
 
@@ -297,7 +299,6 @@ Print Assumptions c12_remove_leave_zero.
 Print Assumptions c12_remove_prof_cands.
 Print Assumptions c12_remove_prof_error.
 Print Assumptions c12_remove_ballot.
-Print Assumptions c12_remove_ballot_exhausted.
 Print Assumptions c12_add_missing_ballot.
 Print Assumptions c12_add_missing_ballot_error.
 Print Assumptions c12_with_missing.
@@ -342,10 +343,11 @@ Example c12_ex_remove_loss :
   wt_where positive (exhausted positive Pos.eqb [2]) bs0 == 1.
 Proof. split; vm_compute; reflexivity. Qed.
 
-Example c12_ex_remove_ballot_defect :
-  Core.remove_cand_ballot positive Pos.eqb [2] true false (pb [[2]] 1) = inr EIndex /\
-  Core.remove_cand_ballot positive Pos.eqb [2] true true (pb [[2]] 1)
-    = inl (mkBallot [] 0 [] None None).
+Example c12_ex_remove_ballot :
+  Core.remove_cand_ballot positive Pos.eqb [2] true false (pb [[2]] 1)
+    = inl (mkBallot [] 0 [] None None) /\
+  Core.remove_cand_ballot positive Pos.eqb [2] true false (pb [[1;2];[2];[3]] (3#2))
+    = inl (mkBallot [[1];[3]] (3#2) [] None None).
 Proof. split; vm_compute; reflexivity. Qed.
 
 Example c12_ex_remove_prof :
